@@ -1,0 +1,53 @@
+//go:build verif
+
+// Machine-checked contracts for package ntlm of the authentication service
+// (comment-only; read by /verif/gocv). Nothing here is compiled.
+package ntlm
+
+//@ define dbPassword(c, u) = dyn(c.h.Database, ptr(database.Config)).users[u].Password
+// representation invariant of NTLMAuth: every cached value is a non-nil context that belongs to this handler
+//@ define cacheInv(h) = h.contextCache != nil && h.contextCache.cache != nil && (forall k string :: cacheHas(h.contextCache.cache, k) ==> typeIs(cacheVal(h.contextCache.cache, k), ptr(ntlmContext)) && dyn(cacheVal(h.contextCache.cache, k), ptr(ntlmContext)) != nil && dyn(cacheVal(h.contextCache.cache, k), ptr(ntlmContext)).h == h)
+
+//@ func NewNTLMAuth
+//@   ensures[C14] inv: result != nil && cacheInv(result) && result.Database == database
+//@   nopanic[C10]
+
+//@ func (*ntlmContext).authenticate
+//@   requires[C10] wf: c != nil && r != nil && am != nil && c.h != nil && c.h.Database != nil && dyn(c.h.Database, ptr(database.Config)) != nil
+//@   requires !r.Authenticated
+//@   assigns r.Authenticated, r.Username, #uiSession, #uiUser, #uiPass, #pamSession, #pamMsg, #pamOK
+//@   ensures[C14] proof: r.Authenticated ==> old(c.session) != nil && #pamOK && #pamSession == c.session && #pamMsg == am && #uiSession == c.session
+//@   ensures[C14] user: r.Authenticated ==> r.Username == #uiUser && #uiPass == dbPassword(c, #uiUser) && #uiPass != ""
+//@   ensures[C14] never: old(c.session) == nil ==> !r.Authenticated && result != nil
+//@   nopanic[C10]
+
+//@ func (*ntlmContext).negotiate
+//@   requires[C10] wf: c != nil && r != nil && c.h != nil
+//@   assigns c.session, r.NtlmMessage, #negSession, #chalSession
+//@   ensures[C14] challenge: result == nil ==> c.session != nil && #chalSession == c.session && #negSession == c.session && c.session != old(#chalSession)
+//@   ensures[C14] noauth: r.Authenticated == old(r.Authenticated)
+//@   nopanic[C10]
+
+//@ func (*ntlmContext).Authenticate
+//@   requires[C10] wf: c != nil && r != nil && c.h != nil && c.h.Database != nil && dyn(c.h.Database, ptr(database.Config)) != nil
+//@   requires !r.Authenticated
+//@   assigns c.session, r.NtlmMessage, r.Authenticated, r.Username, #uiSession, #uiUser, #uiPass, #pamSession, #pamMsg, #pamOK, #negSession, #chalSession
+//@   ensures[C14] needsSession: r.Authenticated ==> old(c.session) != nil && c.session == old(c.session) && #pamOK && #pamSession == c.session && #uiSession == c.session
+//@   ensures[C14] user: r.Authenticated ==> r.Username == #uiUser && #uiPass == dbPassword(c, #uiUser) && #uiPass != ""
+//@   nopanic[C10]
+
+//@ func (*NTLMAuth).getContext
+//@   requires[C10] wf: h != nil && cacheInv(h)
+//@   assigns region(map:Str:gocache), region(gocache)
+//@   ensures[C14] fresh: result != nil && (fresh(result) ==> result.session == nil) && result.h == h
+//@   ensures[C14] inv: cacheInv(h)
+//@   nopanic[C10]
+
+//@ func (*NTLMAuth).Authenticate
+//@   requires[C10] wf: h != nil && message != nil && cacheInv(h) && h.Database != nil && dyn(h.Database, ptr(database.Config)) != nil
+//@   assigns *
+//@   ensures[C14] emptySession: message.Session == "" ==> result1 != nil && !result0.Authenticated
+//@   ensures[C14] emptyMessage: message.NtlmMessage == "" ==> result1 != nil && !result0.Authenticated
+//@   ensures[C14] proof: result0 != nil && (result0.Authenticated ==> #pamOK && #uiPass != "" && result0.Username == #uiUser && #uiSession == #pamSession)
+//@   ensures[C14] inv: cacheInv(h)
+//@   nopanic[C10]
